@@ -1,6 +1,7 @@
 package props
 
 import (
+	"context"
 	"errors"
 	"fmt"
 	"html/template"
@@ -22,6 +23,11 @@ type c05CodedError interface {
 	error
 	Code() int
 }
+
+// c05NotFound is an error type without state: its only value is its zero value.
+type c05NotFound struct{}
+
+func (c05NotFound) Error() string { return "not found" }
 
 type c05Coded struct{ error }
 
@@ -147,6 +153,17 @@ func c05Ctx(env *c05Env) *plush.Context {
 		env.sentinel = c05Coded{env.sentinel}
 		return "result-of-the-failed-call", env.sentinel.(c05CodedError)
 	})
+	// an error whose value is the zero value of its (non-pointer) type is an error all the same
+	ctx.Set("failz", func(id string) (string, error) {
+		env.calls++
+		env.sentinel = c05NotFound{}
+		return "result-of-the-failed-call", env.sentinel
+	})
+	ctx.Set("faildl", func(id string) (string, error) {
+		env.calls++
+		env.sentinel = context.DeadlineExceeded
+		return "", env.sentinel
+	})
 	ctx.Set("failunk", func(id string) (interface{}, error) {
 		env.calls++
 		env.sentinel = &plush.ErrUnknownIdentifier{ID: "fromHelper"}
@@ -207,6 +224,8 @@ var c05Faults = []struct {
 }{
 	{"fail-helper", `fail("p")`, true},
 	{"fail-helper-error-declared-as-wider-interface", `failc("p")`, true},
+	{"fail-helper-zero-valued-error", `failz("p")`, true},
+	{"fail-helper-deadline-exceeded", `faildl("p")`, true},
 	{"div-by-zero", `(1 / zero("p"))`, false},
 	{"index-out-of-range", `xs[big("p")]`, false},
 	{"type-mismatch", `(val("p", 1) - "a")`, false},
